@@ -14,29 +14,51 @@ section Lemmas
 
 /-! ### arithmetic of powers -/
 
-theorem power_add_le (a b total : Nat) : power a total + power b total ≤ power (a + b) total := by
+theorem power_pos_total {a total : Nat} (h : 0 < total) : power a total = a * 2 ^ 32 / total := by
+  unfold power maxPower
+  rw [if_pos h]
+
+theorem power_zero_total (a : Nat) : power a 0 = 0 := by
   unfold power
+  rw [if_neg (Nat.lt_irrefl 0)]
+
+/-- two-sided characterisation of the floor: `p·T ≤ a·2^32 < (p+1)·T` -/
+theorem power_floor_spec {a total : Nat} (h : 0 < total) :
+    power a total * total ≤ a * 2 ^ 32 ∧ a * 2 ^ 32 < (power a total + 1) * total := by
+  rw [power_pos_total h]
+  refine ⟨Nat.div_mul_le_self _ _, ?_⟩
+  have h1 := Nat.div_add_mod (a * 2 ^ 32) total
+  have h2 := Nat.mod_lt (a * 2 ^ 32) h
+  rw [Nat.add_mul, Nat.one_mul, Nat.mul_comm (a * 2 ^ 32 / total) total]
+  omega
+
+theorem power_add_le (a b total : Nat) : power a total + power b total ≤ power (a + b) total := by
   rcases Nat.eq_zero_or_pos total with h | h
-  · subst h; simp
-  · rw [Nat.le_div_iff_mul_le h, Nat.add_mul, Nat.add_mul a b]
+  · subst h; simp [power_zero_total]
+  · rw [power_pos_total h, power_pos_total h, power_pos_total h,
+      Nat.le_div_iff_mul_le h, Nat.add_mul, Nat.add_mul a b]
     exact Nat.add_le_add (Nat.div_mul_le_self _ _) (Nat.div_mul_le_self _ _)
 
 /-- `Σ ⌊aᵢ·2^32/T⌋ ≤ ⌊(Σ aᵢ)·2^32/T⌋` -/
 theorem sum_power_le (l : List Nat) (total : Nat) :
     (l.map (fun a => power a total)).sum ≤ power l.sum total := by
   induction l with
-  | nil => simp [power]
+  | nil => simp
   | cons a as ih =>
     simp only [List.map_cons, List.sum_cons]
     exact Nat.le_trans (Nat.add_le_add_left ih _) (power_add_le a as.sum total)
 
 theorem power_le_max (a total : Nat) (h : a ≤ total) : power a total ≤ maxPower := by
-  unfold power
-  exact Nat.div_le_of_le_mul (Nat.mul_le_mul_right _ h)
+  rcases Nat.eq_zero_or_pos total with h0 | h0
+  · subst h0; rw [power_zero_total]; exact Nat.zero_le _
+  · rw [power_pos_total h0]
+    exact Nat.div_le_of_le_mul (by unfold maxPower; exact Nat.mul_le_mul_right _ h)
 
 theorem power_mono (a b total : Nat) (h : a ≤ b) : power a total ≤ power b total := by
-  unfold power
-  exact Nat.div_le_div_right (Nat.mul_le_mul_right _ h)
+  rcases Nat.eq_zero_or_pos total with h0 | h0
+  · subst h0; simp [power_zero_total]
+  · rw [power_pos_total h0, power_pos_total h0]
+    exact Nat.div_le_div_right (Nat.mul_le_mul_right _ h)
 
 /-! ### the descending sort -/
 
@@ -249,11 +271,25 @@ theorem snapsExtend_onChain (l : List Snapshot) (id c : Nat) :
 
 /-! ### publishing only touches the queue and the ghost log -/
 
+theorem current_mem {s : St} {c : Snapshot} (h : current s = some c) : c ∈ s.snaps :=
+  List.mem_of_find?_eq_some h
+
 /-- what a sent message must satisfy with respect to the snapshot store -/
 def SentOk (snaps : List Snapshot) (p : Nat × Valset) : Prop :=
   thresholdForConsensus ≤ powerSum p.2 ∧ ∃ sn ∈ snaps, p.2 = transform sn p.1
 
-/-- `s` differs from `s0` in queue and log only, and both are fine with respect to `s0.snaps` -/
+/-- `p = (chain, valset)` is what the state `s` sends NOW: the valset of the CURRENT snapshot of `s`
+for that chain, it passes the quorum test and the chain is a supported, active chain -/
+def SentNow (s : St) (p : Nat × Valset) : Prop :=
+  ∃ cur, current s = some cur ∧ p.2 = transform cur p.1 ∧ enough p.2 = true ∧
+    ∃ ci ∈ s.chains, ci.ref = p.1 ∧ ci.active = true
+
+theorem SentNow.sentOk {s : St} {p : Nat × Valset} (h : SentNow s p) : SentOk s.snaps p := by
+  obtain ⟨cur, hc, he, hq, _⟩ := h
+  exact ⟨enough_ge hq, cur, current_mem hc, he⟩
+
+/-- `s` differs from `s0` in queue and log only; the log grew by messages that `s0` sends now and
+that are still pending in the queue of `s` -/
 structure Good (s0 s : St) : Prop where
   snaps : s.snaps = s0.snaps
   lastId : s.lastId = s0.lastId
@@ -262,52 +298,90 @@ structure Good (s0 s : St) : Prop where
   accts : s.accts = s0.accts
   sentOk : ∀ p ∈ s.sent, SentOk s0.snaps p
   queueSub : ∀ p ∈ s.queue, p ∈ s.sent
+  news : ∃ news, s.sent = s0.sent ++ news ∧ ∀ p ∈ news, SentNow s0 p ∧ p ∈ s.queue
 
-theorem send_good {s0 s : St} (c : Nat) (v : Valset) (h : Good s0 s) (hv : SentOk s0.snaps (c, v)) :
+theorem Good.current {s0 s : St} (h : Good s0 s) : current s = current s0 := by
+  unfold Paloma.Valset.current findSnapshot
+  rw [h.snaps, h.lastId]
+
+theorem Good.sentNow {s0 s : St} (h : Good s0 s) {p : Nat × Valset} (hp : SentNow s0 p) : SentNow s p := by
+  obtain ⟨cur, hc, he, hq, ci, hci, hr, ha⟩ := hp
+  exact ⟨cur, by rw [h.current]; exact hc, he, hq, ci, by rw [h.chains]; exact hci, hr, ha⟩
+
+theorem send_good {s0 s : St} (c : Nat) (v : Valset) (h : Good s0 s) (hv : SentNow s0 (c, v)) :
     Good s0 (send s c v) := by
   unfold send
   split
   · exact h
-  · refine ⟨h.snaps, h.lastId, h.chains, h.staking, h.accts, ?_, ?_⟩
+  · rename_i hany
+    obtain ⟨news, hn, hnews⟩ := h.news
+    refine ⟨h.snaps, h.lastId, h.chains, h.staking, h.accts, ?_, ?_, ?_⟩
     · intro p hp
       rcases List.mem_append.mp hp with hp | hp
       · exact h.sentOk p hp
       · have : p = (c, v) := by simpa using hp
-        subst this; exact hv
+        subst this; exact hv.sentOk
     · intro p hp
       rcases List.mem_append.mp hp with hp | hp
       · exact List.mem_append_left _ (h.queueSub p (List.mem_filter.mp hp).1)
       · exact List.mem_append_right _ hp
+    · refine ⟨news ++ [(c, v)], by simp only [hn, List.append_assoc], ?_⟩
+      intro p hp
+      rcases List.mem_append.mp hp with hp | hp
+      · obtain ⟨hsn, hq⟩ := hnews p hp
+        refine ⟨hsn, List.mem_append_left _ (List.mem_filter.mpr ⟨hq, ?_⟩)⟩
+        -- an earlier message of this round for the same chain would carry the same valset id
+        -- and the new message would have been dropped
+        obtain ⟨cur, hc, he, _⟩ := hsn
+        obtain ⟨cur', hc', he', _⟩ := hv
+        have hcc : cur' = cur := Option.some.inj (hc'.symm.trans hc)
+        simp only [bne_iff_ne, ne_eq]
+        intro hpc
+        apply hany
+        refine List.any_eq_true.mpr ⟨p, hq, ?_⟩
+        have e1 : p.2.id = cur.id := by rw [he]; rfl
+        have e2 : v.id = cur.id := by
+          have : v = transform cur' c := he'
+          rw [this, hcc]; rfl
+        simp [hpc, e1, e2]
+      · have : p = (c, v) := by simpa using hp
+        subst this; exact ⟨hv, List.mem_append_right _ (by simp)⟩
 
 theorem publishValset_good {s0 s : St} (ci : ChainInfo) (v : Valset) (pick : Bool) (h : Good s0 s)
-    (hv : ∃ sn ∈ s0.snaps, v = transform sn ci.ref) : Good s0 (publishValset s ci v pick) := by
+    {snap : Snapshot} (hc : current s0 = some snap) (hv : v = transform snap ci.ref)
+    (hci : ci ∈ s0.chains) : Good s0 (publishValset s ci v pick) := by
   unfold publishValset
   split
   · exact h
-  · split
+  · rename_i hact
+    split
     · exact h
     · rename_i he
       split
       · exact h
-      · exact send_good _ _ h ⟨enough_ge (by simpa using he), hv⟩
+      · exact send_good _ _ h ⟨snap, hc, hv, by simpa using he, ci, hci, rfl, by simpa using hact⟩
 
 theorem publishOne_good {s0 s : St} (snap : Snapshot) (now : Nat) (picks : List Nat) (ci : ChainInfo)
-    (h : Good s0 s) (hs : snap ∈ s0.snaps) : Good s0 (publishOne snap now picks s ci) := by
+    (h : Good s0 s) (hs : current s0 = some snap) (hci : ci ∈ s0.chains) :
+    Good s0 (publishOne snap now picks s ci) := by
   unfold publishOne
   split
   · exact h
-  · exact publishValset_good _ _ _ h ⟨snap, hs, rfl⟩
+  · exact publishValset_good _ _ _ h hs rfl hci
 
 theorem foldl_publishOne_good {s0 : St} (snap : Snapshot) (now : Nat) (picks : List Nat)
-    (l : List ChainInfo) (s : St) (h : Good s0 s) (hs : snap ∈ s0.snaps) :
+    (l : List ChainInfo) (s : St) (h : Good s0 s) (hs : current s0 = some snap)
+    (hl : ∀ ci ∈ l, ci ∈ s0.chains) :
     Good s0 (l.foldl (publishOne snap now picks) s) := by
   induction l generalizing s with
   | nil => simpa using h
-  | cons ci cis ih => exact ih _ (publishOne_good snap now picks ci h hs)
+  | cons ci cis ih =>
+    exact ih _ (publishOne_good snap now picks ci h hs (hl ci (by simp)))
+      (fun c hc => hl c (List.mem_cons_of_mem _ hc))
 
 theorem publishAll_good {s0 : St} (snap : Snapshot) (now : Nat) (picks : List Nat)
-    (h : Good s0 s0) (hs : snap ∈ s0.snaps) : Good s0 (publishAll s0 snap now picks) :=
-  foldl_publishOne_good snap now picks _ _ h hs
+    (h : Good s0 s0) (hs : current s0 = some snap) : Good s0 (publishAll s0 snap now picks) :=
+  foldl_publishOne_good snap now picks _ _ h hs (fun _ h => h)
 
 /-! ### the invariant -/
 
@@ -317,18 +391,21 @@ structure Inv (s : St) : Prop where
   last : s.lastId = s.snaps.length
   sentOk : ∀ p ∈ s.sent, SentOk s.snaps p
   queueSub : ∀ p ∈ s.queue, p ∈ s.sent
+  /-- the recorded total of every STORED snapshot is the sum of its shares -/
+  totals : ∀ sn ∈ s.snaps, sn.total = sumShares sn.vals
 
 theorem Inv.good {s : St} (h : Inv s) : Good s s :=
-  ⟨rfl, rfl, rfl, rfl, rfl, h.sentOk, h.queueSub⟩
+  ⟨rfl, rfl, rfl, rfl, rfl, h.sentOk, h.queueSub, [], by simp, by simp⟩
 
 theorem inv_init : Inv St.init := by
   constructor <;> simp [St.init]
 
 theorem inv_of_good {s0 s : St} (h0 : Inv s0) (h : Good s0 s) : Inv s := by
-  refine ⟨?_, ?_, ?_, h.queueSub⟩
+  refine ⟨?_, ?_, ?_, h.queueSub, ?_⟩
   · rw [h.snaps]; exact h0.ids
   · rw [h.snaps, h.lastId]; exact h0.last
   · rw [h.snaps]; exact h.sentOk
+  · rw [h.snaps]; exact h0.totals
 
 theorem find_by_pos_off (l : List Snapshot) (off : Nat)
     (hids : ∀ i (h : i < l.length), l[i].id = i + 1 + off) (i : Nat) (h : i < l.length) :
@@ -371,7 +448,7 @@ theorem inv_setOnChain {s : St} (id c : Nat) (h : Inv s) : Inv (setOnChain s id 
   unfold setOnChain
   split
   · exact h
-  · refine ⟨?_, ?_, ?_, h.queueSub⟩
+  · refine ⟨?_, ?_, ?_, h.queueSub, ?_⟩
     · intro i hi
       simp only [List.getElem_map]
       have := h.ids i (by simpa using hi)
@@ -384,10 +461,16 @@ theorem inv_setOnChain {s : St} (id c : Nat) (h : Inv s) : Inv (setOnChain s id 
       · exact ⟨{ sn with chains := sn.chains ++ [c] }, List.mem_map.mpr ⟨sn, hsn, by simp [hid]⟩,
           by rw [he]; exact (transform_congr _ _ _ rfl rfl).symm⟩
       · exact ⟨sn, List.mem_map.mpr ⟨sn, hsn, by simp [hid]⟩, he⟩
+    · intro sn hsn
+      obtain ⟨sn0, h0, rfl⟩ := List.mem_map.mp hsn
+      split
+      · exact h.totals sn0 h0
+      · exact h.totals sn0 h0
 
-theorem inv_store {s : St} (snap : Snapshot) (h : Inv s) : Inv (storeAsCurrent s snap) := by
+theorem inv_store {s : St} (snap : Snapshot) (h : Inv s) (ht : snap.total = sumShares snap.vals) :
+    Inv (storeAsCurrent s snap) := by
   unfold storeAsCurrent
-  refine ⟨?_, ?_, ?_, h.queueSub⟩
+  refine ⟨?_, ?_, ?_, h.queueSub, ?_⟩
   · intro i hi
     simp only [List.length_append, List.length_singleton] at hi
     by_cases hlt : i < s.snaps.length
@@ -399,27 +482,49 @@ theorem inv_store {s : St} (snap : Snapshot) (h : Inv s) : Inv (storeAsCurrent s
   · intro p hp
     obtain ⟨hq, sn, hsn, he⟩ := h.sentOk p hp
     exact ⟨hq, sn, List.mem_append_left _ hsn, he⟩
+  · intro sn hsn
+    rcases List.mem_append.mp hsn with hsn | hsn
+    · exact h.totals sn hsn
+    · have : sn = { snap with id := s.lastId + 1 } := by simpa using hsn
+      subst this; exact ht
 
 theorem stamped_mem_store (s : St) (snap : Snapshot) :
     { snap with id := s.lastId + 1 } ∈ (storeAsCurrent s snap).snaps := by
   simp [storeAsCurrent]
+
+/-- right after `setSnapshotAsCurrent` the stored record IS the current snapshot -/
+theorem current_store {s : St} (snap : Snapshot) (h : Inv s) (ht : snap.total = sumShares snap.vals) :
+    current (storeAsCurrent s snap) = some { snap with id := s.lastId + 1 } := by
+  have hinv := inv_store snap h ht
+  have hlen : (storeAsCurrent s snap).snaps.length = s.snaps.length + 1 := by
+    simp [storeAsCurrent]
+  have hf := find_by_pos hinv.ids s.snaps.length (by omega)
+  have hget : (storeAsCurrent s snap).snaps[s.snaps.length]'(by omega) = { snap with id := s.lastId + 1 } := by
+    simp [storeAsCurrent]
+  rw [hget] at hf
+  unfold current findSnapshot
+  have : (storeAsCurrent s snap).lastId = s.snaps.length + 1 := by
+    simp [storeAsCurrent, h.last]
+  rw [this]; exact hf
 
 theorem build_good {s : St} (now : Nat) (picks : List Nat) (h : Inv s)
     (hw : (!worthy (current s) (createSnapshot s now)) = false) :
     Good (storeAsCurrent s (createSnapshot s now)) (build s now picks).1 := by
   unfold build
   simp only [hw, Bool.false_eq_true, if_false]
-  exact publishAll_good _ now picks (inv_store _ h).good (stamped_mem_store s _)
+  exact publishAll_good _ now picks (inv_store _ h rfl).good (current_store _ h rfl)
 
 theorem inv_build {s : St} (now : Nat) (picks : List Nat) (h : Inv s) : Inv (build s now picks).1 := by
   cases hw : (!worthy (current s) (createSnapshot s now))
-  · exact inv_of_good (inv_store _ h) (build_good now picks h hw)
+  · exact inv_of_good (inv_store _ h rfl) (build_good now picks h hw)
   · unfold build
     simp only [hw, if_true]
     exact h
 
-theorem current_mem {s : St} {c : Snapshot} (h : current s = some c) : c ∈ s.snaps :=
-  List.mem_of_find?_eq_some h
+theorem findChain_some {s : St} {c : Nat} {ci : ChainInfo} (h : findChain s c = some ci) :
+    ci ∈ s.chains ∧ ci.ref = c := by
+  unfold findChain at h
+  exact ⟨List.mem_of_find?_eq_some h, by simpa using List.find?_some h⟩
 
 theorem jit_good {s : St} (c : Nat) (pick : Bool) (h : Inv s) : Good s (jit s c pick).1 := by
   unfold jit
@@ -427,28 +532,32 @@ theorem jit_good {s : St} (c : Nat) (pick : Bool) (h : Inv s) : Good s (jit s c 
   · exact h.good
   · exact h.good
   · exact h.good
-  · rename_i ci cur pub _ hcur _
+  · rename_i ci cur pub hci hcur _
     split
     · exact h.good
     · split
       · exact h.good
-      · split
+      · rename_i hact
+        split
         · exact h.good
         · rename_i he
           split
           · exact h.good
-          · exact send_good _ _ h.good ⟨enough_ge (by simpa using he), cur, current_mem hcur, rfl⟩
+          · exact send_good _ _ h.good
+              ⟨cur, hcur, rfl, by simpa using he, ci, (findChain_some hci).1, (findChain_some hci).2,
+                by simpa using hact⟩
 
 theorem inv_jit {s : St} (c : Nat) (pick : Bool) (h : Inv s) : Inv (jit s c pick).1 :=
   inv_of_good h (jit_good c pick h)
 
 theorem inv_frame {s s' : St} (h : Inv s) (h1 : s'.snaps = s.snaps) (h2 : s'.lastId = s.lastId)
     (h3 : s'.sent = s.sent) (h4 : s'.queue = s.queue) : Inv s' := by
-  refine ⟨?_, ?_, ?_, ?_⟩
+  refine ⟨?_, ?_, ?_, ?_, ?_⟩
   · rw [h1]; exact h.ids
   · rw [h1, h2]; exact h.last
   · rw [h1, h3]; exact h.sentOk
   · rw [h3, h4]; exact h.queueSub
+  · rw [h1]; exact h.totals
 
 theorem inv_step {s : St} (op : Op) (h : Inv s) : Inv (step s op) := by
   cases op with
@@ -534,11 +643,309 @@ theorem run_snapsExtend {s : St} (ops : List Op) (h : Inv s) : SnapsExtend s.sna
   | nil => exact SnapsExtend.refl _
   | cons op ops ih => exact (step_snapsExtend op h).trans (ih (inv_step op h))
 
+/-! ### histories: prefixes, what one operation stores and sends -/
+
+theorem snoc_induction {α : Type} {P : List α → Prop} (h0 : P [])
+    (hs : ∀ l a, P l → P (l ++ [a])) : ∀ l, P l := by
+  intro l
+  have key : ∀ l : List α, P l.reverse := by
+    intro l
+    induction l with
+    | nil => simpa using h0
+    | cons a l ih => rw [List.reverse_cons]; exact hs _ _ ih
+  simpa using key l.reverse
+
+theorem run_append (s : St) (a b : List Op) : run s (a ++ b) = run (run s a) b := by
+  unfold run; exact List.foldl_append
+
+theorem run_snoc (s : St) (l : List Op) (a : Op) : run s (l ++ [a]) = step (run s l) a := by
+  rw [run_append]; rfl
+
+/-- the chain an operation adds to the live-list of the snapshot `id` -/
+def addedBy (id : Nat) : Op → Option Nat
+  | .onChain i c => if i = id then some c else none
+  | _ => none
+
+/-- the chains that the `SetSnapshotOnChain` operations of `ops` add to snapshot `id`, in order -/
+def chainsAdded (id : Nat) (ops : List Op) : List Nat := ops.filterMap (addedBy id)
+
+theorem chainsAdded_snoc (id : Nat) (ops : List Op) (op : Op) :
+    chainsAdded id (ops ++ [op]) = chainsAdded id ops ++ (addedBy id op).toList := by
+  unfold chainsAdded
+  rw [List.filterMap_append]
+  cases h : addedBy id op <;> simp [h]
+
+/-- a snapshot with its chain list blanked: everything that must never change -/
+def Snapshot.core (sn : Snapshot) : Snapshot := { sn with chains := [] }
+
+theorem core_extends {a b : Snapshot} (h : b.core = a.core) :
+    b.id = a.id ∧ b.vals = a.vals ∧ b.total = a.total ∧ b.createdAt = a.createdAt := by
+  unfold Snapshot.core at h
+  cases a; cases b
+  simp only [Snapshot.mk.injEq] at h
+  simp [h]
+
+/-- every record in the store after one operation is either a record that was stored before —
+unchanged except for the chain this very operation appended — or the snapshot this `build` made -/
+theorem step_snaps_cases {s : St} (hi : Inv s) (op : Op) (sn : Snapshot)
+    (h : sn ∈ (step s op).snaps) :
+    (∃ sn0 ∈ s.snaps, sn.core = sn0.core ∧ sn.chains = sn0.chains ++ (addedBy sn0.id op).toList) ∨
+    (∃ now picks, op = .build now picks ∧ (build s now picks).2 = some sn ∧ sn.chains = []) := by
+  have same : ∀ {s' : St}, s'.snaps = s.snaps → sn ∈ s'.snaps → (∀ id, addedBy id op = none) →
+      ∃ sn0 ∈ s.snaps, sn.core = sn0.core ∧ sn.chains = sn0.chains ++ (addedBy sn0.id op).toList := by
+    intro s' he hm hn
+    exact ⟨sn, by rw [← he]; exact hm, rfl, by simp [hn]⟩
+  cases op with
+  | setStaking l => exact Or.inl (same rfl h (fun _ => rfl))
+  | register v a =>
+    refine Or.inl (same ?_ h (fun _ => rfl))
+    simp only [step, register]
+    split
+    · rfl
+    · split
+      · rfl
+      · split <;> rfl
+  | support c =>
+    refine Or.inl (same ?_ h (fun _ => rfl))
+    simp only [step, support]
+    split <;> rfl
+  | activate c =>
+    refine Or.inl (same ?_ h (fun _ => rfl))
+    simp only [step, activate]
+    split <;> rfl
+  | remove c =>
+    refine Or.inl (same ?_ h (fun _ => rfl))
+    simp only [step, remove]
+    split <;> rfl
+  | jit c pick =>
+    exact Or.inl (same (jit_good c pick hi).snaps h (fun _ => rfl))
+  | build now picks =>
+    simp only [step] at h
+    cases hw : (!worthy (current s) (createSnapshot s now))
+    · rw [(build_good now picks hi hw).snaps] at h
+      simp only [storeAsCurrent, List.mem_append, List.mem_singleton] at h
+      rcases h with h | h
+      · exact Or.inl ⟨sn, h, rfl, by simp [addedBy]⟩
+      · refine Or.inr ⟨now, picks, rfl, ?_, by rw [h]; rfl⟩
+        unfold build
+        simp only [hw, Bool.false_eq_true, if_false]
+        rw [h]
+    · unfold build at h
+      simp only [hw, if_true] at h
+      exact Or.inl ⟨sn, h, rfl, by simp [addedBy]⟩
+  | onChain id c =>
+    simp only [step, setOnChain] at h
+    split at h
+    · rename_i hnone
+      refine Or.inl ⟨sn, h, rfl, ?_⟩
+      have hne : ¬ id = sn.id := by
+        intro e
+        have := List.find?_eq_none.mp hnone sn h
+        simp [e] at this
+      simp [addedBy, hne]
+    · obtain ⟨sn0, h0, rfl⟩ := List.mem_map.mp h
+      refine Or.inl ⟨sn0, h0, ?_⟩
+      by_cases e : sn0.id = id
+      · subst e
+        simp [addedBy, Snapshot.core]
+      · have e' : ¬ id = sn0.id := fun x => e x.symm
+        simp [e, e', addedBy]
+
+/-- a message is appended to the log by operation `op` in state `s`: it is the valset of the
+snapshot that is current right after `op` (for a build: the snapshot this build stored; for a
+just-in-time update: the snapshot that was already current), for an active chain, it passed the
+quorum test, and it is pending in the queue -/
+def SentAt (s : St) (op : Op) (p : Nat × Valset) : Prop :=
+  ∃ cur, current (step s op) = some cur ∧ p.2 = transform cur p.1 ∧ enough p.2 = true ∧
+    (∃ ci ∈ (step s op).chains, ci.ref = p.1 ∧ ci.active = true) ∧
+    p ∈ (step s op).queue ∧
+    ((∃ now picks, op = .build now picks ∧ (build s now picks).2 = some cur) ∨
+     (∃ pick, op = .jit p.1 pick ∧ current s = some cur))
+
+theorem step_sent {s : St} (hi : Inv s) (op : Op) :
+    ∃ news, (step s op).sent = s.sent ++ news ∧ ∀ p ∈ news, SentAt s op p := by
+  have none : ∀ {s' : St}, s'.sent = s.sent →
+      ∃ news, s'.sent = s.sent ++ news ∧ ∀ p ∈ news, SentAt s op p :=
+    fun he => ⟨[], by simp [he], by simp⟩
+  cases op with
+  | setStaking l => exact none rfl
+  | register v a =>
+    apply none
+    simp only [step, register]
+    split
+    · rfl
+    · split
+      · rfl
+      · split <;> rfl
+  | support c =>
+    apply none
+    simp only [step, support]
+    split <;> rfl
+  | activate c =>
+    apply none
+    simp only [step, activate]
+    split <;> rfl
+  | remove c =>
+    apply none
+    simp only [step, remove]
+    split <;> rfl
+  | onChain id c =>
+    apply none
+    simp only [step, setOnChain]
+    split <;> rfl
+  | build now picks =>
+    cases hw : (!worthy (current s) (createSnapshot s now))
+    · have hg := build_good now picks hi hw
+      obtain ⟨news, hn, hnews⟩ := hg.news
+      refine ⟨news, by simpa [step, storeAsCurrent] using hn, ?_⟩
+      intro p hp
+      obtain ⟨hsn, hq⟩ := hnews p hp
+      obtain ⟨cur, hc, he, hen, hch⟩ := hg.sentNow hsn
+      refine ⟨cur, hc, he, hen, hch, hq, Or.inl ⟨now, picks, rfl, ?_⟩⟩
+      have hc0 : current (storeAsCurrent s (createSnapshot s now)) = some cur := by
+        rw [← hg.current]; exact hc
+      rw [current_store _ hi rfl] at hc0
+      unfold build
+      simp only [hw, Bool.false_eq_true, if_false]
+      exact hc0
+    · apply none
+      simp only [step]
+      unfold build
+      simp only [hw, if_true]
+  | jit c pick =>
+    have hg := jit_good c pick hi
+    -- the log grows by at most the one message `(c, transform cur c)`
+    have key : (jit s c pick).1.sent = s.sent ∨
+        ∃ cur, current s = some cur ∧ (jit s c pick).1.sent = s.sent ++ [(c, transform cur c)] := by
+      unfold jit
+      split
+      · exact Or.inl rfl
+      · exact Or.inl rfl
+      · exact Or.inl rfl
+      · rename_i ci cur pub hci hcur _
+        split
+        · exact Or.inl rfl
+        · split
+          · exact Or.inl rfl
+          · split
+            · exact Or.inl rfl
+            · split
+              · exact Or.inl rfl
+              · unfold send
+                split
+                · exact Or.inl rfl
+                · exact Or.inr ⟨cur, hcur, rfl⟩
+    rcases key with key | ⟨cur, hcur, key⟩
+    · exact none key
+    · refine ⟨[(c, transform cur c)], key, ?_⟩
+      intro p hp
+      have hpe : p = (c, transform cur c) := by simpa using hp
+      obtain ⟨news, hn, hnews⟩ := hg.news
+      have hnews' : news = [(c, transform cur c)] := by
+        have := hn.symm.trans key
+        exact List.append_cancel_left this
+      have hp' : p ∈ news := by rw [hnews', hpe]; simp
+      obtain ⟨hsn, hq⟩ := hnews p hp'
+      obtain ⟨cur', hc', he', hen, hch⟩ := hg.sentNow hsn
+      have hcc : cur' = cur := by
+        have h2 : current (jit s c pick).1 = some cur' := hc'
+        rw [hg.current, hcur] at h2
+        exact (Option.some.inj h2).symm
+      subst hcc
+      refine ⟨cur', hc', he', hen, hch, hq, Or.inr ⟨pick, ?_, hcur⟩⟩
+      rw [hpe]
+
+theorem step_sent_prefix {s : St} (hi : Inv s) (op : Op) : s.sent <+: (step s op).sent := by
+  obtain ⟨news, hn, _⟩ := step_sent hi op
+  exact ⟨news, hn.symm⟩
+
+theorem run_sent_prefix {s : St} (ops : List Op) (hi : Inv s) : s.sent <+: (run s ops).sent := by
+  induction ops generalizing s with
+  | nil => exact List.prefix_refl _
+  | cons op ops ih => exact (step_sent_prefix hi op).trans (ih (inv_step op hi))
+
+/-! ### the staking environment -/
+
+/-- ASSUMPTION on the environment (Cosmos SDK staking store, keyed by operator address):
+`IterateValidators` shows every validator once, i.e. every staking state fed to the model lists
+pairwise distinct validator ids -/
+def StakingWF (ops : List Op) : Prop := ∀ l, Op.setStaking l ∈ ops → (l.map (·.id)).Nodup
+
+theorem StakingWF.prefix {pre post : List Op} (h : StakingWF (pre ++ post)) : StakingWF pre :=
+  fun l hl => h l (List.mem_append_left _ hl)
+
+theorem step_staking {s : St} (hi : Inv s) (op : Op) :
+    (step s op).staking = s.staking ∨ ∃ l, op = .setStaking l ∧ (step s op).staking = l := by
+  cases op with
+  | setStaking l => exact Or.inr ⟨l, rfl, rfl⟩
+  | register v a =>
+    left
+    simp only [step, register]
+    split
+    · rfl
+    · split
+      · rfl
+      · split <;> rfl
+  | support c => left; simp only [step, support]; split <;> rfl
+  | activate c => left; simp only [step, activate]; split <;> rfl
+  | remove c => left; simp only [step, remove]; split <;> rfl
+  | onChain id c => left; simp only [step, setOnChain]; split <;> rfl
+  | jit c pick => left; exact (jit_good c pick hi).staking
+  | build now picks =>
+    left
+    cases hw : (!worthy (current s) (createSnapshot s now))
+    · exact (build_good now picks hi hw).staking
+    · simp only [step]; unfold build; simp only [hw, if_true]
+
+theorem staking_nodup (ops : List Op) (h : StakingWF ops) :
+    ((run St.init ops).staking.map (·.id)).Nodup := by
+  revert h
+  induction ops using snoc_induction with
+  | h0 => intro _; simp [run, St.init]
+  | hs l a ih =>
+    intro h
+    rw [run_snoc]
+    rcases step_staking (inv_reachable l) a with e | ⟨l', rfl, e⟩
+    · rw [e]; exact ih h.prefix
+    · rw [e]; exact h l' (by simp)
+
+theorem build_some {s : St} {now : Nat} {picks : List Nat} {x : Snapshot}
+    (h : (build s now picks).2 = some x) :
+    worthy (current s) (createSnapshot s now) = true ∧
+      x = { createSnapshot s now with id := s.lastId + 1 } := by
+  unfold build at h
+  split at h
+  · simp at h
+  · rename_i hw
+    exact ⟨by simpa using hw, (Option.some.inj h).symm⟩
+
+theorem sum_zero_power (c : Nat) (l : List Val) :
+    (l.map (fun v => (chosen c v).length * power v.share 0)).sum = 0 := by
+  have e : (fun v : Val => (chosen c v).length * power v.share 0) = fun _ => 0 :=
+    funext (fun v => by rw [power_zero_total, Nat.mul_zero])
+  rw [e]
+  induction l with
+  | nil => rfl
+  | cons a as ih => simpa using ih
+
+theorem mem_le_sum (l : List Nat) (a : Nat) (h : a ∈ l) : a ≤ l.sum := by
+  induction l with
+  | nil => simp at h
+  | cons b bs ih =>
+    simp only [List.sum_cons]
+    rcases List.mem_cons.mp h with rfl | h
+    · omega
+    · have := ih h; omega
+
 end Lemmas
 
 /-! ## Property theorems (C10) -/
 
-/-- **snapshot_exact** ("every snapshot lists exactly the bonded, unjailed validators that have an
+/-! ### Part 1 — what a snapshot contains -/
+
+/-- **snapshot_exact** — what `createNewSnapshot` computes, for EVERY state (the lifting to the
+snapshots that are actually STORED, over all histories, is `stored_snapshot_exact` below).
+("every snapshot lists exactly the bonded, unjailed validators that have an
 account on every active remote chain, with each share equal to the validator's bonded stake and the
 total equal to their sum"). For every staking state, registration state and set of chains the
 snapshot built by `createSnapshot` lists, in store order and each exactly once, the staking
@@ -568,9 +975,10 @@ theorem snapshot_exact (s : St) (now : Nat) :
   · rintro ⟨sv, hm, h1, h2, h3, rfl⟩
     exact ⟨sv, ⟨hm, (eligible_iff s sv).mpr ⟨h1, h2, h3⟩⟩, rfl⟩
 
-/-- **snapshot_exact, stored.** What `TriggerSnapshotBuild` stores (when it stores anything) is
+/-- **build_stores_exact.** What `TriggerSnapshotBuild` stores (when it stores anything) is
 exactly that snapshot under the next id: it becomes the current snapshot and can be read back by
-its id. (Over any reachable pre-state.) -/
+its id. (Over any reachable pre-state.) The error branch is explicit: when the new snapshot is not
+"worthy" nothing is returned and the state is unchanged (`rejected_is_noop`). -/
 theorem build_stores_exact (ops : List Op) (now : Nat) (picks : List Nat) (sn : Snapshot)
     (h : (build (run St.init ops) now picks).2 = some sn) :
     sn = { createSnapshot (run St.init ops) now with id := (run St.init ops).lastId + 1 } ∧
@@ -578,30 +986,122 @@ theorem build_stores_exact (ops : List Op) (now : Nat) (picks : List Nat) (sn : 
     findSnapshot (build (run St.init ops) now picks).1 sn.id = some sn := by
   have hi := inv_reachable ops
   generalize run St.init ops = s at h hi ⊢
-  cases hw : (!worthy (current s) (createSnapshot s now))
-  · have hg := build_good now picks hi hw
-    have hs : sn = { createSnapshot s now with id := s.lastId + 1 } := by
-      unfold build at h
-      simp only [hw, Bool.false_eq_true, if_false] at h
-      exact (Option.some.inj h).symm
-    have hinv := inv_store (createSnapshot s now) hi
-    have hlen : (storeAsCurrent s (createSnapshot s now)).snaps.length = s.snaps.length + 1 := by
-      simp [storeAsCurrent]
-    have hf := find_by_pos hinv.ids s.snaps.length (by omega)
-    have hget : (storeAsCurrent s (createSnapshot s now)).snaps[s.snaps.length]'(by omega) = sn := by
-      simp [storeAsCurrent, hs]
-    rw [hget] at hf
-    have hid : sn.id = s.snaps.length + 1 := by rw [hs]; simp [hi.last]
-    refine ⟨hs, ?_, ?_⟩
-    · unfold current findSnapshot
-      rw [hg.snaps, hg.lastId]
-      have : (storeAsCurrent s (createSnapshot s now)).lastId = s.snaps.length + 1 := by
-        simp [storeAsCurrent, hi.last]
-      rw [this]; exact hf
-    · unfold findSnapshot
-      rw [hg.snaps, hid]; exact hf
-  · unfold build at h
-    simp [hw] at h
+  obtain ⟨hw, hs⟩ := build_some h
+  have hw' : (!worthy (current s) (createSnapshot s now)) = false := by simp [hw]
+  have hg := build_good now picks hi hw'
+  have hc : current (build s now picks).1 = some sn := by
+    rw [hg.current, current_store _ hi rfl, hs]
+  refine ⟨hs, hc, ?_⟩
+  have : sn.id = (build s now picks).1.lastId := by
+    rw [hg.lastId, hs]; rfl
+  rw [this]; exact hc
+
+/-- **stored_provenance** (provenance of every STORED snapshot, all histories). Every record in
+the snapshot store of a reachable state is a function of the history: the history splits as
+`pre ++ build now picks :: post`, that build returned the record (with an empty chain list), and
+the record's chain list is exactly the chains that the `SetSnapshotOnChain` operations of `post`
+added to its id, in order. Nothing else ever writes to a stored snapshot. -/
+theorem stored_provenance (ops : List Op) (sn : Snapshot) (h : sn ∈ (run St.init ops).snaps) :
+    ∃ pre now picks post, ops = pre ++ Op.build now picks :: post ∧
+      (build (run St.init pre) now picks).2 = some { sn with chains := [] } ∧
+      sn.chains = chainsAdded sn.id post := by
+  revert sn
+  induction ops using snoc_induction with
+  | h0 => intro sn h; simp [run, St.init] at h
+  | hs l a ih =>
+    intro sn h
+    rw [run_snoc] at h
+    rcases step_snaps_cases (inv_reachable l) a sn h with
+      ⟨sn0, h0, hc, hch⟩ | ⟨now, picks, rfl, hb, hch⟩
+    · obtain ⟨pre, now, picks, post, rfl, hb, hp⟩ := ih sn0 h0
+      refine ⟨pre, now, picks, post ++ [a], by simp, ?_, ?_⟩
+      · have : ({ sn with chains := [] } : Snapshot) = { sn0 with chains := [] } := hc
+        rw [this]; exact hb
+      · have hid : sn.id = sn0.id := (core_extends hc).1
+        rw [chainsAdded_snoc, hid, ← hp]; exact hch
+    · refine ⟨l, now, picks, [], rfl, ?_, by rw [hch]; rfl⟩
+      have : ({ sn with chains := [] } : Snapshot) = sn := by
+        cases sn; simp only [Snapshot.mk.injEq, true_and] at hch ⊢; exact hch.symm
+      rw [this]; exact hb
+
+/-- **stored_snapshot_exact** ("EVERY snapshot lists exactly the bonded, unjailed validators that
+have an account on every active remote chain, with each share equal to the validator's bonded
+stake and the total equal to their sum" — for the snapshots that are STORED, over all histories).
+For every record `sn` of the store of every reachable state there is a point `pre` of the history
+(the build that stored it) such that, with `s` = the state at that point: the build was worthy,
+`sn.id` is the next id, `sn.vals` is — in store order — exactly the staking validators of `s` that
+are bonded, not jailed and have an account on every chain active in `s`, each with share = its
+tokens and its registered accounts; `sn.total` is the sum of the shares; the chain list is what
+later on-chain activations appended. -/
+theorem stored_snapshot_exact (ops : List Op) (sn : Snapshot) (h : sn ∈ (run St.init ops).snaps) :
+    ∃ pre now picks post, ops = pre ++ Op.build now picks :: post ∧
+      worthy (current (run St.init pre)) (createSnapshot (run St.init pre) now) = true ∧
+      sn.id = (run St.init pre).lastId + 1 ∧ sn.createdAt = now ∧
+      sn.vals = ((run St.init pre).staking.filter (eligible (run St.init pre))).map
+          (fun sv => { id := sv.id, share := sv.tokens, accts := acctsOf (run St.init pre) sv.id }) ∧
+      (∀ v, v ∈ sn.vals ↔
+        ∃ sv ∈ (run St.init pre).staking, sv.status = .bonded ∧ sv.jailed = false ∧
+          (∀ c ∈ activeChains (run St.init pre), ∃ a ∈ acctsOf (run St.init pre) sv.id, a.chain = c) ∧
+          v = { id := sv.id, share := sv.tokens, accts := acctsOf (run St.init pre) sv.id }) ∧
+      sn.total = (sn.vals.map (·.share)).sum ∧
+      sn.chains = chainsAdded sn.id post := by
+  obtain ⟨pre, now, picks, post, hops, hb, hch⟩ := stored_provenance ops sn h
+  obtain ⟨hw, hx⟩ := build_some hb
+  have hid : sn.id = (run St.init pre).lastId + 1 := by
+    have := congrArg Snapshot.id hx; exact this
+  have hvals : sn.vals = (createSnapshot (run St.init pre) now).vals := by
+    have := congrArg Snapshot.vals hx; exact this
+  have htot : sn.total = (createSnapshot (run St.init pre) now).total := by
+    have := congrArg Snapshot.total hx; exact this
+  have hat : sn.createdAt = now := by
+    have := congrArg Snapshot.createdAt hx; exact this
+  refine ⟨pre, now, picks, post, hops, hw, hid, hat, hvals, ?_, ?_, hch⟩
+  · intro v
+    rw [hvals]
+    exact (snapshot_exact (run St.init pre) now).2.2.1 v
+  · rw [htot, hvals]; rfl
+
+/-- **stored_total_is_sum**: in every reachable state the recorded total of every stored snapshot
+is the sum of its shares (so the divisor `transformSnapshotToCompass` recomputes IS the recorded
+total). -/
+theorem stored_total_is_sum (ops : List Op) :
+    ∀ sn ∈ (run St.init ops).snaps, sn.total = (sn.vals.map (·.share)).sum :=
+  (inv_reachable ops).totals
+
+/-- **stored_each_once** ("lists EXACTLY … each once"). ASSUMPTION `StakingWF` (environment, Cosmos
+SDK): the staking store is keyed by operator address, so every staking state shown to the module
+lists pairwise distinct validators. Then in every reachable state every stored snapshot lists
+pairwise distinct validators, its id list is a sublist (store order) of the staking ids at build
+time, and every eligible validator occurs in it exactly once. -/
+theorem stored_each_once (ops : List Op) (hwf : StakingWF ops) (sn : Snapshot)
+    (h : sn ∈ (run St.init ops).snaps) :
+    (sn.vals.map (·.id)).Nodup ∧
+    ∃ pre now picks post, ops = pre ++ Op.build now picks :: post ∧
+      (sn.vals.map (·.id)).Sublist ((run St.init pre).staking.map (·.id)) ∧
+      ∀ sv ∈ (run St.init pre).staking, eligible (run St.init pre) sv = true →
+        (sn.vals.map (·.id)).count sv.id = 1 := by
+  obtain ⟨pre, now, picks, post, hops, _, _, _, hvals, _, _, _⟩ := stored_snapshot_exact ops sn h
+  have hmap : sn.vals.map (·.id) =
+      ((run St.init pre).staking.filter (eligible (run St.init pre))).map (·.id) := by
+    rw [hvals, List.map_map]; rfl
+  have hsub : (sn.vals.map (·.id)).Sublist ((run St.init pre).staking.map (·.id)) := by
+    rw [hmap]; exact List.Sublist.map _ List.filter_sublist
+  have hnd : (sn.vals.map (·.id)).Nodup :=
+    List.Nodup.sublist hsub (staking_nodup pre (by rw [hops] at hwf; exact hwf.prefix))
+  refine ⟨hnd, pre, now, picks, post, hops, hsub, ?_⟩
+  intro sv hsv hel
+  rw [List.Nodup.count hnd, if_pos]
+  rw [hmap]
+  exact List.mem_map.mpr ⟨sv, List.mem_filter.mpr ⟨hsv, hel⟩, rfl⟩
+
+/-- **the assumption is needed**: the model (like `createNewSnapshot`) does not deduplicate — a
+staking iteration that showed a validator twice would be listed twice and counted twice. -/
+theorem staking_assumption_needed :
+    ∃ ops, ∃ sn ∈ (run St.init ops).snaps, ¬ (sn.vals.map (·.id)).Nodup :=
+  ⟨[.setStaking [⟨1, .bonded, false, 5⟩, ⟨1, .bonded, false, 5⟩], .build 1 []],
+    ⟨1, [⟨1, 5, []⟩, ⟨1, 5, []⟩], 10, 1, []⟩, by decide, by decide⟩
+
+/-! ### Part 2 — ids, the current snapshot, immutability -/
 
 /-- **ids_strictly_increase.** In every reachable state the stored snapshots carry the ids
 `1, 2, …, n` in storage order (so ids strictly increase and never repeat), the id counter equals
@@ -688,27 +1188,36 @@ theorem store_only_grows (ops0 ops : List Op) :
     (run St.init ops0).snaps.length ≤ (run (run St.init ops0) ops).snaps.length :=
   (run_snapsExtend ops (inv_reachable ops0)).1
 
+/-! ### Part 3 — the validator set of one chain -/
+
+/-- **power_spec** ("stake fraction scaled to 2^32 and rounded down"): for a positive total the
+power is THE floor of `share · 2^32 / total` — two-sided: `p·T ≤ share·2^32 < (p+1)·T` — and for a
+zero total it is 0 by the explicit branch of the code (`if totalPower.Sign() > 0`), not by `x/0`. -/
+theorem power_spec (share total : Nat) :
+    (0 < total → power share total = share * 2 ^ 32 / total ∧
+      power share total * total ≤ share * 2 ^ 32 ∧ share * 2 ^ 32 < (power share total + 1) * total) ∧
+    (total = 0 → power share total = 0) :=
+  ⟨fun h => ⟨power_pos_total h, power_floor_spec h⟩, fun h => by rw [h]; exact power_zero_total _⟩
+
 /-- **powers_floor** ("each with its stake fraction scaled to 2^32 and rounded down as power").
 Every entry of the valset for `chain` is the remote address of the first EVM account on `chain`
-of a snapshot validator, and its power is exactly `⌊share · 2^32 / Σ shares⌋`. -/
+of a snapshot validator, and its power is `power share (Σ shares)`, i.e. (see `power_spec`) the
+two-sided floor of `share · 2^32 / Σ shares` when `Σ shares > 0` and 0 when `Σ shares = 0`. -/
 theorem powers_floor (snap : Snapshot) (chain : Nat) (m : Nat × Nat)
     (h : m ∈ (transform snap chain).members) :
     ∃ v ∈ snap.vals, ∃ a ∈ v.accts, isEvm a.ctype = true ∧ a.chain = chain ∧
       (v.accts.filter (fun a => isEvm a.ctype && a.chain == chain)).head? = some a ∧
-      m.1 = a.addr ∧ m.2 = v.share * 2 ^ 32 / (snap.vals.map (·.share)).sum := by
+      m.1 = a.addr ∧ m.2 = power v.share (snap.vals.map (·.share)).sum ∧
+      ((snap.vals.map (·.share)).sum = 0 → m.2 = 0) ∧
+      (0 < (snap.vals.map (·.share)).sum →
+        m.2 = v.share * 2 ^ 32 / (snap.vals.map (·.share)).sum ∧
+        m.2 * (snap.vals.map (·.share)).sum ≤ v.share * 2 ^ 32 ∧
+        v.share * 2 ^ 32 < (m.2 + 1) * (snap.vals.map (·.share)).sum) := by
   have hm := (transform_members_perm snap chain).mem_iff.mp h
   obtain ⟨v, hv, hmv⟩ := List.mem_flatMap.mp hm
   obtain ⟨a, ha, rfl⟩ := mem_membersOf.mp hmv
   obtain ⟨h1, h2, h3⟩ := head_matching ha
-  exact ⟨v, hv, a, h1, h2, h3, ha, rfl, rfl⟩
-
-/-- **powers_floor for stored snapshots**: the divisor is the snapshot's recorded total. -/
-theorem powers_floor_created (s : St) (now chain : Nat) (m : Nat × Nat)
-    (h : m ∈ (transform (createSnapshot s now) chain).members) :
-    ∃ v ∈ (createSnapshot s now).vals, ∃ a ∈ v.accts, isEvm a.ctype = true ∧ a.chain = chain ∧
-      m.1 = a.addr ∧ m.2 = v.share * 2 ^ 32 / (createSnapshot s now).total := by
-  obtain ⟨v, hv, a, ha, h1, h2, _, h3, h4⟩ := powers_floor _ _ _ h
-  exact ⟨v, hv, a, ha, h1, h2, h3, h4⟩
+  exact ⟨v, hv, a, h1, h2, h3, ha, rfl, rfl, (power_spec _ _).2, (power_spec _ _).1⟩
 
 /-- **restricted_to_chain** ("that snapshot restricted to validators with an account there").
 The valset for `chain` is, up to order, the list obtained by walking the snapshot validators and
@@ -721,7 +1230,7 @@ theorem restricted_to_chain (snap : Snapshot) (chain : Nat) :
     (transform snap chain).members.Perm
       (snap.vals.flatMap (fun v =>
         ((v.accts.filter (fun a => isEvm a.ctype && a.chain == chain)).take 1).map
-          (fun a => (a.addr, v.share * 2 ^ 32 / (snap.vals.map (·.share)).sum)))) ∧
+          (fun a => (a.addr, power v.share (snap.vals.map (·.share)).sum)))) ∧
     (transform snap chain).members.length =
       (snap.vals.filter (fun v => v.accts.any (fun a => isEvm a.ctype && a.chain == chain))).length ∧
     (∀ addr, addr ∈ (transform snap chain).members.map (·.1) ↔
@@ -822,20 +1331,22 @@ theorem powers_sum_le (snap : Snapshot) (chain : Nat) :
   rw [e] at h2
   exact Nat.le_trans h1 (Nat.le_trans h2 h3)
 
-/-- **powers_sum_le, arithmetic core**: for any shares that sum to at most the divisor, the
+/-- **powers_sum_le, arithmetic core**: for any shares that sum to at most a positive divisor, the
 floored powers sum to at most `2^32`. -/
-theorem powers_sum_le_of_shares (shares : List Nat) (total : Nat) (h : shares.sum ≤ total) :
-    (shares.map (fun a => a * 2 ^ 32 / total)).sum ≤ 2 ^ 32 :=
-  Nat.le_trans (sum_power_le shares total) (power_le_max _ _ h)
+theorem powers_sum_le_of_shares (shares : List Nat) (total : Nat) (h0 : 0 < total)
+    (h : shares.sum ≤ total) :
+    (shares.map (fun a => a * 2 ^ 32 / total)).sum ≤ 2 ^ 32 := by
+  have e : (fun a => a * 2 ^ 32 / total) = fun a => power a total :=
+    funext (fun a => (power_pos_total h0).symm)
+  rw [e]
+  exact Nat.le_trans (sum_power_le shares total) (power_le_max _ _ h)
 
-/-- **powers_sum_le over histories.** Every valset ever sent, in every history, has powers
-summing to at most `2^32` (and at least the quorum constant, see below). -/
-theorem sent_sum_le (ops : List Op) :
-    ∀ p ∈ (run St.init ops).sent, (p.2.members.map (·.2)).sum ≤ 2 ^ 32 := by
-  intro p hp
-  obtain ⟨_, sn, _, he⟩ := (inv_reachable ops).sentOk p hp
-  rw [he]
-  exact powers_sum_le sn p.1
+/-- every single power fits: at most `2^32` (so `power.Uint64()` in the Go code is exact) -/
+theorem member_power_le (snap : Snapshot) (chain : Nat) (m : Nat × Nat)
+    (h : m ∈ (transform snap chain).members) : m.2 ≤ 2 ^ 32 := by
+  have hs := powers_sum_le snap chain
+  have : m.2 ∈ (transform snap chain).members.map (·.2) := List.mem_map.mpr ⟨m, h, rfl⟩
+  exact Nat.le_trans (mem_le_sum _ _ this) hs
 
 /-- the valset as the PINNED tree built it (before repo fix 8962e1ca): one entry per matching
 account, so a validator with two EVM accounts on the chain was listed — and counted — twice -/
@@ -868,39 +1379,7 @@ theorem transformPinned_eq (snap : Snapshot) (chain : Nat)
       rw [List.take_of_length_le (hl v (by simp))]
   rw [key _ _ (fun v hv => h v (mem_sortDesc.mp hv))]
 
-/-- **sent_only_with_quorum** ("it is only sent when those powers sum to at least two thirds of
-2^32" — with the implementation's constant). Over all histories: every UpdateValset message ever
-put into a queue (`sent`), and hence every message pending in a queue, carries powers that sum to
-at least `thresholdForConsensus = 2863311530`, and is the valset of a stored snapshot for the
-chain whose queue it is in. -/
-theorem sent_only_with_quorum (ops : List Op) :
-    (∀ p ∈ (run St.init ops).sent,
-        2863311530 ≤ (p.2.members.map (·.2)).sum ∧
-        ∃ sn ∈ (run St.init ops).snaps, p.2 = transform sn p.1) ∧
-    (∀ p ∈ (run St.init ops).queue, p ∈ (run St.init ops).sent) :=
-  ⟨(inv_reachable ops).sentOk, (inv_reachable ops).queueSub⟩
-
-/-- the quorum test itself: passing it means `Σ powers ≥ 2863311530` -/
-theorem enough_iff (v : Valset) : enough v = true ↔ 2863311530 ≤ (v.members.map (·.2)).sum % 2 ^ 64 := by
-  unfold enough powerSum thresholdForConsensus
-  simp
-
-/-- **the constant is NOT two thirds of 2^32**: a power sum of exactly `2863311530` passes the
-test although `3 · sum < 2 · 2^32`. -/
-theorem threshold_below_two_thirds : ¬ (3 * thresholdForConsensus ≥ 2 * 2 ^ 32) := by decide
-
-/-- one more unit would be two thirds -/
-theorem threshold_succ_is_two_thirds : 3 * (thresholdForConsensus + 1) ≥ 2 * 2 ^ 32 := by decide
-
-theorem threshold_is_floor : thresholdForConsensus = 2 * 2 ^ 32 / 3 := by decide
-
-/-- consequence for sent valsets: at most two thirds of a unit short of `2/3 · 2^32` -/
-theorem sent_quorum_gap (ops : List Op) (p : Nat × Valset) (h : p ∈ (run St.init ops).sent) :
-    3 * (p.2.members.map (·.2)).sum + 2 ≥ 2 * 2 ^ 32 := by
-  have := ((sent_only_with_quorum ops).1 p h).1
-  omega
-
-/-! ## Non-vacuity -/
+/-! ### Part 4 — what is sent, and when -/
 
 /-- two bonded validators with stakes 2:1, a jailed unbonding one; chain 1 is added, activated,
 validator 1 registers an EVM account there, validator 2 an account of another chain type -/
@@ -912,12 +1391,323 @@ def exOps : List Op :=
    .register 1 [⟨0, 1, 101, []⟩], .register 2 [⟨2, 1, 102, [7]⟩], .register 3 [⟨0, 1, 103, []⟩],
    .build 20 [1]]
 
+/-- **sent_is_current** ("the validator set sent to a remote chain is THAT snapshot restricted …" —
+that snapshot = the current one at send time). Over all histories, for every position `i` of the
+log of sent messages: the history splits as `pre ++ op :: post` such that the message was appended
+by `op` (the log had at most `i` entries before `op` and holds the message at position `i` right
+after it) and — `SentAt` — with `s` = the state before `op`: the message is `transform cur chain`
+where `cur` is the CURRENT snapshot right after `op`; `op` is either a `build` that returned `cur`
+(the snapshot it has just stored) or a just-in-time update for that chain with `cur` already
+current before; the valset passed the quorum test; the chain is supported and active; and the
+message is pending in the chain's queue right after `op`. -/
+theorem sent_is_current (ops : List Op) (i : Nat) (p : Nat × Valset)
+    (h : (run St.init ops).sent[i]? = some p) :
+    ∃ pre op post, ops = pre ++ op :: post ∧
+      (run St.init pre).sent.length ≤ i ∧
+      (run St.init (pre ++ [op])).sent[i]? = some p ∧
+      (run St.init (pre ++ [op])).sent <+: (run St.init ops).sent ∧
+      SentAt (run St.init pre) op p := by
+  revert i p
+  induction ops using snoc_induction with
+  | h0 => intro i p h; simp [run, St.init] at h
+  | hs l a ih =>
+    intro i p h
+    obtain ⟨news, hn, hnews⟩ := step_sent (inv_reachable l) a
+    rw [run_snoc, hn] at h
+    by_cases hlt : i < (run St.init l).sent.length
+    · rw [List.getElem?_append_left hlt] at h
+      obtain ⟨pre, op, post, rfl, h1, h2, h3, h4⟩ := ih i p h
+      refine ⟨pre, op, post ++ [a], by simp, h1, h2, ?_, h4⟩
+      have e : pre ++ op :: post ++ [a] = (pre ++ [op]) ++ (post ++ [a]) := by simp
+      have := run_sent_prefix (post ++ [a]) (inv_reachable (pre ++ [op]))
+      rw [← run_append] at this
+      rw [e]; exact this
+    · have hle : (run St.init l).sent.length ≤ i := Nat.le_of_not_lt hlt
+      rw [List.getElem?_append_right hle] at h
+      refine ⟨l, a, [], rfl, hle, ?_, List.prefix_refl _, hnews p (List.mem_of_getElem? h)⟩
+      rw [run_snoc, hn, List.getElem?_append_right hle]; exact h
+
+/-- the log of a prefix of the history is a prefix of the log: the ghost log `sent` is append-only -/
+theorem sent_append_only (pre post : List Op) :
+    (run St.init pre).sent <+: (run St.init (pre ++ post)).sent := by
+  rw [run_append]; exact run_sent_prefix _ (inv_reachable _)
+
+/-- **the ghost log is tied to the executable state**: every message pending in a queue is in the
+log (so every statement about `sent` holds for the queues that `GetMessagesFromQueue` shows), and
+every logged message was appended by a `build` / just-in-time update of the history as the valset
+of the then-current snapshot (membership form of `sent_is_current`). -/
+theorem queue_is_sent_current (ops : List Op) :
+    (∀ p ∈ (run St.init ops).queue, p ∈ (run St.init ops).sent) ∧
+    (∀ p ∈ visibleQueue (run St.init ops), p ∈ (run St.init ops).sent) ∧
+    (∀ p ∈ (run St.init ops).sent, ∃ pre op post, ops = pre ++ op :: post ∧
+        p ∈ (run St.init (pre ++ [op])).sent ∧ SentAt (run St.init pre) op p) := by
+  refine ⟨(inv_reachable ops).queueSub, ?_, ?_⟩
+  · intro p hp
+    exact (inv_reachable ops).queueSub p (List.mem_filter.mp hp).1
+  · intro p hp
+    obtain ⟨i, hi⟩ := List.mem_iff_getElem?.mp hp
+    obtain ⟨pre, op, post, h1, _, h3, _, h5⟩ := sent_is_current ops i p hi
+    exact ⟨pre, op, post, h1, List.mem_of_getElem? h3, h5⟩
+
+/-- the quorum test itself: passing it means `Σ powers ≥ 2863311530` (the sum is a uint64) -/
+theorem enough_iff (v : Valset) : enough v = true ↔ 2863311530 ≤ (v.members.map (·.2)).sum % 2 ^ 64 := by
+  unfold enough powerSum thresholdForConsensus
+  simp
+
+/-- for a valset built from a snapshot the uint64 sum cannot wrap: the test is exactly
+`Σ powers ≥ 2863311530` -/
+theorem enough_transform_iff (snap : Snapshot) (chain : Nat) :
+    enough (transform snap chain) = true ↔
+      2863311530 ≤ ((transform snap chain).members.map (·.2)).sum := by
+  rw [enough_iff, Nat.mod_eq_of_lt]
+  exact Nat.lt_of_le_of_lt (powers_sum_le snap chain) (by decide)
+
+/-- **the constant is NOT two thirds of 2^32**: a power sum of exactly `2863311530` passes the
+test although `3 · sum < 2 · 2^32`. -/
+theorem threshold_below_two_thirds : ¬ (3 * thresholdForConsensus ≥ 2 * 2 ^ 32) := by decide
+
+/-- one more unit would be two thirds -/
+theorem threshold_succ_is_two_thirds : 3 * (thresholdForConsensus + 1) ≥ 2 * 2 ^ 32 := by decide
+
+theorem threshold_is_floor : thresholdForConsensus = 2 * 2 ^ 32 / 3 := by decide
+
+/- FULL-STRENGTH CLAUSE ("it is only sent when those powers sum to at least two thirds of 2^32"):
+
+     theorem sent_only_with_two_thirds (ops : List Op) :
+         ∀ p ∈ (run St.init ops).sent, 3 * (p.2.members.map (·.2)).sum ≥ 2 * 2 ^ 32
+
+   It is FALSE — for the model and for /repo (`thresholdForConsensus = 2_863_311_530`,
+   x/evm/keeper/keeper.go; known finding C10-threshold-floor, reproduced on the real keeper by
+   TestC10, monitor `sent_only_with_quorum`, key `sum=2863311530`). The negation is proved next
+   with a concrete reachable history; the best true statement is `sent_only_with_quorum_partial`. -/
+
+/-- **sent_two_thirds_violated — the clause "at least two thirds of 2^32" is VIOLATED**: the
+history `exOps` (stakes 2:1, the small validator has no EVM account on chain 1) sends a valset
+whose powers sum to 2863311530, and `3 · 2863311530 = 2 · 2^32 − 2 < 2 · 2^32`. -/
+theorem sent_two_thirds_violated :
+    ¬ ∀ ops : List Op, ∀ p ∈ (run St.init ops).sent,
+        3 * (p.2.members.map (·.2)).sum ≥ 2 * 2 ^ 32 := by
+  intro h
+  have := h exOps (1, ⟨2, [(101, 2863311530)]⟩) (by decide)
+  revert this
+  decide
+
+/-- **sent_only_with_quorum_partial** (the part of "only sent when the powers sum to at least two
+thirds of 2^32" that is TRUE; the full clause is refuted by `sent_two_thirds_violated`). Over all
+histories every UpdateValset message ever put into a queue (`sent`; hence every message pending in
+a queue) passed `isEnoughToReachConsensus`, so its powers sum to at least
+`⌊2·2^32/3⌋ = 2863311530`; that is at most 2/3 of a unit short of two thirds (`3Σ + 2 ≥ 2·2^32`),
+and two thirds is reached in every case except `Σ = 2863311530` exactly. It is the valset of a
+stored snapshot for the chain whose queue it is in (`sent_is_current`: of the current one at send
+time). -/
+theorem sent_only_with_quorum_partial (ops : List Op) :
+    (∀ p ∈ (run St.init ops).sent,
+        enough p.2 = true ∧
+        2 * 2 ^ 32 / 3 ≤ (p.2.members.map (·.2)).sum ∧
+        2 * 2 ^ 32 ≤ 3 * (p.2.members.map (·.2)).sum + 2 ∧
+        (2 * 2 ^ 32 ≤ 3 * (p.2.members.map (·.2)).sum ∨ (p.2.members.map (·.2)).sum = 2863311530) ∧
+        ∃ sn ∈ (run St.init ops).snaps, p.2 = transform sn p.1) ∧
+    (∀ p ∈ (run St.init ops).queue, p ∈ (run St.init ops).sent) := by
+  refine ⟨?_, (inv_reachable ops).queueSub⟩
+  intro p hp
+  obtain ⟨hq, hsn⟩ := (inv_reachable ops).sentOk p hp
+  obtain ⟨_, _, _, _, _, cur, _, _, hen, _⟩ := (queue_is_sent_current ops).2.2 p hp
+  have hq' : 2863311530 ≤ (p.2.members.map (·.2)).sum := hq
+  refine ⟨hen, ?_, ?_, ?_, hsn⟩
+  · have : 2 * 2 ^ 32 / 3 = 2863311530 := by decide
+    omega
+  · omega
+  · omega
+
+/-- consequence for sent valsets: at most two thirds of a unit short of `2/3 · 2^32` -/
+theorem sent_quorum_gap (ops : List Op) (p : Nat × Valset) (h : p ∈ (run St.init ops).sent) :
+    3 * (p.2.members.map (·.2)).sum + 2 ≥ 2 * 2 ^ 32 :=
+  ((sent_only_with_quorum_partial ops).1 p h).2.2.1
+
+/-- **below_quorum_not_sent** (the rejecting branch of the gate, both entry points): a valset that
+fails the test is not sent by `PublishValsetToChain`, and a just-in-time update whose valset fails
+the test leaves the state — queue and log included — unchanged. -/
+theorem below_quorum_not_sent (s : St) :
+    (∀ ci v pick, enough v = false → publishValset s ci v pick = s) ∧
+    (∀ c pick cur, current s = some cur → enough (transform cur c) = false → (jit s c pick).1 = s) := by
+  constructor
+  · intro ci v pick h
+    unfold publishValset
+    split
+    · rfl
+    · simp [h]
+  · intro c pick cur hc h
+    unfold jit
+    split
+    · rfl
+    · rfl
+    · rfl
+    · rename_i ci cur' pub _ hcur _
+      have : cur' = cur := Option.some.inj (hcur.symm.trans hc)
+      subst this
+      split
+      · rfl
+      · split
+        · rfl
+        · simp [h]
+
+/-- **powers_sum_le over histories.** Every valset ever sent, in every history, has powers
+summing to at most `2^32` (and at least the quorum constant, see above). -/
+theorem sent_sum_le (ops : List Op) :
+    ∀ p ∈ (run St.init ops).sent, (p.2.members.map (·.2)).sum ≤ 2 ^ 32 := by
+  intro p hp
+  obtain ⟨_, sn, _, he⟩ := (inv_reachable ops).sentOk p hp
+  rw [he]
+  exact powers_sum_le sn p.1
+
+/-- **sent_total_pos** (no `x/0` in anything that is sent): every sent valset is the valset of a
+stored snapshot whose recorded total is the sum of its shares and is POSITIVE. (A snapshot with
+total 0 gives all powers 0 and fails the quorum test.) -/
+theorem sent_total_pos (ops : List Op) (p : Nat × Valset) (h : p ∈ (run St.init ops).sent) :
+    ∃ sn ∈ (run St.init ops).snaps, p.2 = transform sn p.1 ∧
+      sn.total = (sn.vals.map (·.share)).sum ∧ 0 < sn.total := by
+  obtain ⟨hq, sn, hsn, he⟩ := (inv_reachable ops).sentOk p h
+  have htot := (inv_reachable ops).totals sn hsn
+  refine ⟨sn, hsn, he, htot, ?_⟩
+  rcases Nat.eq_zero_or_pos sn.total with h0 | h0
+  · exfalso
+    have hz : powerSum (transform sn p.1) = 0 := by
+      rw [powerSum_transform, ← htot, h0]; exact sum_zero_power _ _
+    rw [he, hz] at hq
+    revert hq; decide
+  · exact h0
+
+/-- **powers_floor for what is sent** (stored snapshots, all histories): every entry of every sent
+valset is the address of the first EVM account on that chain of a validator of a stored snapshot,
+and its power `m.2` is the genuine floor of `share · 2^32 / total` with `total` the snapshot's
+RECORDED total, which is positive: `m.2 · total ≤ share · 2^32 < (m.2 + 1) · total`. -/
+theorem sent_powers_floor (ops : List Op) (p : Nat × Valset) (h : p ∈ (run St.init ops).sent)
+    (m : Nat × Nat) (hm : m ∈ p.2.members) :
+    ∃ sn ∈ (run St.init ops).snaps, p.2 = transform sn p.1 ∧ 0 < sn.total ∧
+      ∃ v ∈ sn.vals, ∃ a ∈ v.accts, isEvm a.ctype = true ∧ a.chain = p.1 ∧
+        (v.accts.filter (fun a => isEvm a.ctype && a.chain == p.1)).head? = some a ∧
+        m.1 = a.addr ∧ m.2 = v.share * 2 ^ 32 / sn.total ∧
+        m.2 * sn.total ≤ v.share * 2 ^ 32 ∧ v.share * 2 ^ 32 < (m.2 + 1) * sn.total := by
+  obtain ⟨sn, hsn, he, htot, hpos⟩ := sent_total_pos ops p h
+  rw [he] at hm
+  obtain ⟨v, hv, a, ha, h1, h2, h3, h4, _, _, h7⟩ := powers_floor sn p.1 m hm
+  rw [← htot] at h7
+  exact ⟨sn, hsn, he, hpos, v, hv, a, ha, h1, h2, h3, h4, h7 hpos⟩
+
+/-- **powers_floor for STORED snapshots** (all histories; replaces the former statement about the
+unstored `createSnapshot`): for every record `sn` of the store of a reachable state and every chain,
+every entry of `transform sn chain` (what `GetValsetByID` / a later publication computes) belongs to
+a validator of `sn`, and its power is computed with the snapshot's RECORDED total as divisor —
+the two-sided floor when that total is positive, 0 when it is 0. -/
+theorem powers_floor_stored (ops : List Op) (sn : Snapshot) (hsn : sn ∈ (run St.init ops).snaps)
+    (chain : Nat) (m : Nat × Nat) (hm : m ∈ (transform sn chain).members) :
+    ∃ v ∈ sn.vals, ∃ a ∈ v.accts, isEvm a.ctype = true ∧ a.chain = chain ∧
+      (v.accts.filter (fun a => isEvm a.ctype && a.chain == chain)).head? = some a ∧
+      m.1 = a.addr ∧ m.2 = power v.share sn.total ∧ v.share ≤ sn.total ∧
+      (sn.total = 0 → m.2 = 0) ∧
+      (0 < sn.total → m.2 = v.share * 2 ^ 32 / sn.total ∧
+        m.2 * sn.total ≤ v.share * 2 ^ 32 ∧ v.share * 2 ^ 32 < (m.2 + 1) * sn.total) := by
+  have htot : sn.total = (sn.vals.map (·.share)).sum := (inv_reachable ops).totals sn hsn
+  obtain ⟨v, hv, a, ha, h1, h2, h3, h4, h5, h6, h7⟩ := powers_floor sn chain m hm
+  rw [← htot] at h5 h6 h7
+  refine ⟨v, hv, a, ha, h1, h2, h3, h4, h5, ?_, h6, h7⟩
+  rw [htot]
+  exact mem_le_sum _ _ (List.mem_map.mpr ⟨v, hv, rfl⟩)
+
+/-! ### Part 5 — rejected operations -/
+
+/-- **rejected_is_noop**: every operation that is rejected — registration (more than 100
+accounts / validator not bonded-and-unjailed / address collision), adding a chain that exists,
+activating or removing an unknown chain, `SetSnapshotOnChain` for an unknown id, a just-in-time
+update without chain / current snapshot / published snapshot / relayer — and a build whose snapshot
+is not worthy leave the WHOLE state unchanged. -/
+theorem rejected_is_noop (s : St) :
+    (∀ v a, (register s v a).2 = .rejected → (register s v a).1 = s) ∧
+    (∀ c, (support s c).2 = .rejected → (support s c).1 = s) ∧
+    (∀ c, (activate s c).2 = .rejected → (activate s c).1 = s) ∧
+    (∀ c, (remove s c).2 = .rejected → (remove s c).1 = s) ∧
+    (∀ id c, (setOnChain s id c).2 = .rejected → (setOnChain s id c).1 = s) ∧
+    (∀ id c, (setOnChain s id c).2 = .rejected ↔ findSnapshot s id = none) ∧
+    (∀ c pick, (jit s c pick).2 = .rejected → (jit s c pick).1 = s) ∧
+    (∀ now picks, (build s now picks).2 = none → (build s now picks).1 = s) ∧
+    (∀ now picks, (build s now picks).2 = none ↔ worthy (current s) (createSnapshot s now) = false) := by
+  refine ⟨?_, ?_, ?_, ?_, ?_, ?_, ?_, ?_, ?_⟩
+  · intro v a h
+    unfold register at h ⊢
+    split
+    · rfl
+    · split
+      · rfl
+      · split
+        · rfl
+        · rename_i h1 h2 h3
+          simp [h1, h2, h3] at h
+  · intro c h
+    unfold support at h ⊢
+    split
+    · rfl
+    · rename_i h1; simp [h1] at h
+  · intro c h
+    unfold activate at h ⊢
+    split
+    · rfl
+    · rename_i h1; simp [h1] at h
+  · intro c h
+    unfold remove at h ⊢
+    split
+    · rfl
+    · rename_i h1; simp [h1] at h
+  · intro id c h
+    unfold setOnChain at h ⊢
+    split
+    · rfl
+    · rename_i h1; simp [h1] at h
+  · intro id c
+    unfold setOnChain
+    split
+    · rename_i h1; simp [h1]
+    · rename_i h1; simp [h1]
+  · intro c pick h
+    unfold jit at h ⊢
+    split
+    · rfl
+    · rfl
+    · rfl
+    · split
+      · rfl
+      · split
+        · rfl
+        · split
+          · rfl
+          · split
+            · rfl
+            · rename_i h1 h2 h3 h4 h5 h6 h7
+              simp [h1, h2, h3, h4, h5, h6, h7] at h
+  · intro now picks h
+    unfold build at h ⊢
+    split
+    · rfl
+    · rename_i h1; simp [h1] at h
+  · intro now picks
+    unfold build
+    split
+    · rename_i h1; simpa using h1
+    · rename_i h1; simpa using h1
+
+/-! ## Non-vacuity -/
+
 /-- the second build stores snapshot 2 = exactly validators 1 and 2 (3 is unbonding and could not
 even register, 4 is jailed), shares = tokens, total = their sum -/
 example : (run St.init exOps).snaps.map (fun sn => (sn.id, sn.vals.map (fun v => (v.id, v.share)), sn.total)) =
     [(1, [(1, 2000000), (2, 1000000)], 3000000), (2, [(1, 2000000), (2, 1000000)], 3000000)] := by decide
 
 example : (current (run St.init exOps)).map (·.id) = some 2 := by decide
+
+/-- `StakingWF` holds for `exOps` -/
+example : StakingWF exOps := by
+  intro l hl
+  have : l = exStaking := by simpa [exOps] using hl
+  subst this; decide
 
 /-- **negation witness for "two thirds"**: this history SENDS a valset to chain 1 whose powers sum
 to exactly 2863311530, and `3 · 2863311530 < 2 · 2^32`. -/
@@ -931,10 +1721,36 @@ example : (run St.init [.setStaking [⟨1, .bonded, false, 1999999⟩, ⟨2, .bo
     .support 1, .activate 1, .register 1 [⟨0, 1, 101, []⟩], .register 2 [⟨2, 1, 102, []⟩],
     .build 20 [1]]).sent = [] := by decide
 
+/-- a bonded validator with stake 0 (total 0): the snapshot is stored, all powers are 0 by the
+explicit branch, nothing is sent -/
+example : ((run St.init [.setStaking [⟨1, .bonded, false, 0⟩], .support 1, .activate 1,
+    .register 1 [⟨0, 1, 11, []⟩], .build 1 [1]]).snaps.map
+      (fun sn => (sn.id, sn.total, (transform sn 1).members)),
+    (run St.init [.setStaking [⟨1, .bonded, false, 0⟩], .support 1, .activate 1,
+    .register 1 [⟨0, 1, 11, []⟩], .build 1 [1]]).sent) = ([(1, 0, [(11, 0)])], []) := by decide
+
+/-- the just-in-time path is reachable: snapshot 1 goes live on chain 1, snapshot 2 is built while
+no relayer can be assigned, the just-in-time update then sends the valset of snapshot 2 = the
+current snapshot (not of snapshot 1, the published one) -/
+def jitOps : List Op :=
+  [.setStaking [⟨1, .bonded, false, 5⟩], .support 1, .activate 1, .register 1 [⟨0, 1, 11, []⟩],
+   .build 10 [], .onChain 1 1, .setStaking [⟨1, .bonded, false, 5⟩, ⟨2, .bonded, false, 1⟩],
+   .register 2 [⟨2, 1, 12, []⟩], .build 3000000 [], .jit 1 true]
+
+example : (run St.init (jitOps.take 9)).sent = [] ∧
+    (run St.init jitOps).sent = [(1, ⟨2, [(11, 3579139413)]⟩)] ∧
+    (current (run St.init jitOps)).map (·.id) = some 2 ∧
+    (run St.init jitOps).snaps.map (fun sn => (sn.id, sn.chains, sn.vals.length)) =
+      [(1, [1], 1), (2, [], 2)] := by decide
+
 /-- on-chain activation extends the chain list and nothing else; a later build adds snapshot 3 -/
 example : (run St.init (exOps ++ [.onChain 2 1, .onChain 2 3, .onChain 9 1,
       .setStaking [⟨1, .bonded, false, 2000000⟩], .build 30 [1]])).snaps.map
         (fun sn => (sn.id, sn.chains, sn.vals.length)) = [(1, [], 2), (2, [1, 3], 2), (3, [], 1)] := by decide
+
+/-- `chainsAdded` on that history: the chains added to snapshot 2 after its build -/
+example : chainsAdded 2 [.onChain 2 1, .onChain 2 3, .onChain 9 1,
+      .setStaking [⟨1, .bonded, false, 2000000⟩], .build 30 [1]] = [1, 3] := by decide
 
 /-- the float64 counterexample of the pinned tree: the floor is …688 (float64 gave …689) -/
 example : power 8372225 8388609 = 4286578688 := by decide
@@ -956,5 +1772,12 @@ example : (register (run St.init [.setStaking exStaking]) 1 [⟨0, 1, 11, []⟩,
 example : (run St.init [.setStaking [⟨1, .bonded, false, 5⟩, ⟨2, .bonded, false, 5⟩], .support 1, .activate 1,
     .register 1 [⟨0, 1, 11, []⟩, ⟨1, 1, 12, []⟩], .register 2 [⟨2, 1, 14, []⟩, ⟨0, 1, 13, []⟩],
     .build 20 [1]]).sent = [(1, ⟨1, [(13, 2 ^ 31), (11, 2 ^ 31)]⟩)] := by decide
+
+/-- rejected operations through `run`: an unbonding validator cannot register, an unknown snapshot
+id cannot go on chain, a duplicate chain is refused -/
+example : (register (run St.init exOps) 3 [⟨0, 1, 103, []⟩]).2 = .rejected ∧
+    (setOnChain (run St.init exOps) 9 1).2 = .rejected ∧
+    (support (run St.init exOps) 1).2 = .rejected ∧
+    (build (run St.init exOps) 21 [1]).2 = none := by decide
 
 end Paloma.Valset
